@@ -15,6 +15,9 @@ type PropDef struct {
 	Gen        func(r *Rand, tier string, i int) *h.Scenario
 	Judge      func(hi *Hist) []*Violation
 	NonTrivial func(hi *Hist) bool
+	// Expand derives the enumerated variants of a base run (fault enumeration):
+	// every injection point / fault site of the base execution.
+	Expand func(base *h.Scenario, hi *Hist, r *Rand, tier string) []*h.Scenario
 	// Probes names reach counters that must not stay at zero over a batch.
 	Probes []string
 }
